@@ -39,7 +39,8 @@ done
 # independently written breaking changes (seeded/<id>/, DESIGN section 13) that target this property
 for d in "$HERE"/seeded/*/; do
   [ -f "$d/patch.diff" ] || continue
-  tgt=$(sed -n 's/.*"property": *"\([A-Z0-9]*\)".*/\1/p' "$d/meta.json" | head -1)
+  tgt=$(sed -n 's/.*"reported_by_property": *"\([A-Z0-9]*\)".*/\1/p' "$d/meta.json" | head -1)
+  [ -z "$tgt" ] && tgt=$(sed -n 's/.*"property": *"\([A-Z0-9]*\)".*/\1/p' "$d/meta.json" | head -1)
   [ "$tgt" = "$ID" ] || continue
   name="seeded/$(basename "$d")"
   SCR=$(mktemp -d /tmp/vsens.XXXXXX)
